@@ -80,6 +80,17 @@ def has_cmp(t):
 
 
 def run(ctx):
+    # chains beyond the Python stack and long ones within it: the right magnitude or a diagnosed refusal, operand order kept
+    _its = []
+    for _n in (300, 700, 1200, 3000):
+        for _t, _w in (("3 km" + " - 1 m" * _n + " to m", "I:%d" % (3000 - _n)), ("6 km / 2" + " / 1" * _n + " to m", "I:3000"),
+                       ("(1 h" + " - 1 s" * _n + ") to s", "I:%d" % (3600 - _n)), ("x = 5 kg" + " - 1 g" * _n + "; x to g", "I:%d" % (5000 - _n)),
+                       ("{2 km" + " - 1 m" * _n + "} to m", None), ("1 m" + " * 2" * 10 + " / 4" * _n + " * 4" * _n + " to mm", "I:1024000")):
+            if _w is None:
+                continue
+            _its.append(([_t], (lambda o, w=_w: (o.get("status") == 1 and not o.get("escaped")) or (o.get("status") == 0 and o.get("value") == w)),
+                         "a chain of %d operators under units: the exact magnitude or a diagnosed refusal" % _n))
+    C.expect_sessions(ctx["report"], ctx["rundir"], "C04", _its, kind="long-chain")
     C.seam_check(ctx["report"], ctx["rundir"], "C04", wrappers=[],
                  pairs=[("(5 mg | kg) * 1000000 == 5", "1"), ("(7 kg m | g s^2) to m | s^2", "7000"), ("(250 mg | kg) * 2 kg to mg", "500"), ("(3 km | m) == 3000", "1"),
                         ("5 centidays to s; 2 cd", "2 cd"), ("1 milliinch to m; 3 min to s", "180"), ("1 picotonne to kg; 2 pt to l", "2 pt to l"),
